@@ -17,7 +17,7 @@ func init() {
 	core.Register(&core.Prop{
 		ID:    "C05",
 		Level: "exploration",
-		Rule: "the edit histories of C02 plus targeted ones (pure directory chmod/chown, adjacent deleted directories, subtree deletions, dir<->file swaps), synthetic sources with delayed reads so that file contents complete out of order; every NotifyHashed call is recorded and checked against the notification model: applying the events to the old snapshot yields the new one, every changed path is reported exactly once with the stat as sent, no unchanged path is reported, deletes are exactly the top-most removed paths, digests are recomputed from the stat on the wire and the bytes now in dest. " +
+		Rule: "Plus: a history that splits a link pair of a 1 MiB file keeping the size (1 case of 30); synthetic sources that announce size 0 for symlinks; symlinks re-targeted to another spelling of the same path. the edit histories of C02 plus targeted ones (pure directory chmod/chown, adjacent deleted directories, subtree deletions, dir<->file swaps), synthetic sources with delayed reads so that file contents complete out of order; every NotifyHashed call is recorded and checked against the notification model: applying the events to the old snapshot yields the new one, every changed path is reported exactly once with the stat as sent, no unchanged path is reported, deletes are exactly the top-most removed paths, digests are recomputed from the stat on the wire and the bytes now in dest. " +
 			"non-trivial = a round with at least one add/modify and (a delete or an untouched entry); distinct by history fingerprint",
 		Assumptions: []string{"root", "add vs modify is not demanded", "the hard-link timing exception of C02 applies", "children of a directory replaced by a non-directory vanish with the parent's event"},
 		Cases: func(tier string) int {
@@ -82,7 +82,28 @@ func c05Run(c *core.Ctx) *core.Result {
 		r.Count("histories_with_rewriting_filter", 1)
 	}
 	var obs []roundObs
-	if c.R.P(1, 3) {
+	if br := core.NewRand(core.Mix(c.Seed, "C05-big-split", c.Index)); br.P(1, 30) {
+		// a large file (disk image, database) with a second name; the source
+		// then gives the second name a file of its own, same size, other
+		// bytes: only that name changes, the first keeps bytes and stamp
+		n := 1<<20 + br.Intn(3)*4096 + br.Intn(2)
+		data := br.Bytes(n)
+		t0 := &tree.Tree{Entries: []tree.Entry{
+			{Path: "img", Type: tree.File, Perm: 0644, Mtime: 1e18, Data: data},
+			{Path: "img.bak", Type: tree.File, Perm: 0644, Mtime: 1e18, Data: data, LinkTo: "img"},
+			{Path: "z", Type: tree.File, Perm: 0600, Mtime: 1e18 + 1, Data: []byte("z")}}}
+		ho2 := histOpt{Rounds: 1, GenOpt: g, EditOpt: eo, Filter: ho.Filter}
+		obs = runHistoryFrom(c, r, ho2, t0, func(t *tree.Tree) []string {
+			nd := append([]byte(nil), data...)
+			copy(nd, "other bytes at the start")
+			nd[len(nd)-1] ^= 0x55
+			e := t.Get("img.bak")
+			e.LinkTo, e.Data, e.Mtime = "", nd, 1e18+int64(br.Intn(2))*5
+			fixGroups(t)
+			return []string{"unlink-and-rewrite-same-size img.bak"}
+		})
+		r.Count("histories_splitting_a_link_pair_of_a_file_of_1MiB", 1)
+	} else if c.R.P(1, 3) {
 		// targeted: start from a tree with adjacent directories, delete several of them / chmod dirs
 		ho.GenOpt.MaxEntries = 8
 		obs = runHistoryFrom(c, r, ho, c05Targeted(c.R, ho.GenOpt), func(t *tree.Tree) []string {
